@@ -54,12 +54,12 @@ c04_zipf!(c04_zipf_f32, f32);
 // C03: Zipf returns an integer >= 1 (and <= n where that is decided without the accuracy of powf)
 // ------------------------------------------------------------------------------------------
 macro_rules! c03_zipf {
-    ($name:ident, $f:ty, $maxn:expr, $umax:expr, $mode:expr) => {
+    ($name:ident, $f:ty, $maxn:expr, $umax:expr, $mode:expr, $n1:expr) => {
         vproof! {
             #[kani::unwind(3)]
             fn $name() {
                 let mut rng = SymRng::new(2); // all symbolic inputs are drawn first (replay alignment)
-                let n: $f = kani::any();
+                let n: $f = if $n1 { 1.0 } else { kani::any() };
                 let s: $f = kani::any();
                 let d = match Zipf::<$f>::new(n, s) { Ok(d) => d, Err(_) => return };
                 // n is "the number of elements": integral values only (for fractional n the support is not documented)
@@ -75,7 +75,7 @@ macro_rules! c03_zipf {
                 vassert!(!(n < 2.0) || x == 1.0, "Zipf sample exceeds n (n < 2 must always give 1)");
                 vassert!(rng.pos == 2, "Zipf: a trial consumes two words");
                 kani::cover!(x == 1.0, "x = 1");
-                kani::cover!($mode == 1 || x > 1.0, "x > 1");
+                kani::cover!($mode == 1 || $n1 || x > 1.0, "x > 1");
             }
         }
     };
@@ -84,28 +84,28 @@ fn umax64(w: u64) -> bool { (w >> 11) == (1u64 << 53) - 1 }
 fn umax32(w: u64) -> bool { ((w as u32) >> 8) == (1u32 << 24) - 1 }
 //@ id: c03_zipf_f64
 //@ prop: C03
-//@ tier: quick
+//@ tier: thorough
 //@ cap: 900
 //@ funcs: Zipf::<f64>::new; Zipf::<f64>::sample; inv_cdf
 //@ bounds: n in [1, 1e15], s in [0, 100]; first trial (2 words)
 //@ assumes: libm::{pow,log,exp} by contract; x <= n is asserted only for n < 2 (for larger n it depends on the last-ulp accuracy of powf, outside the contracts); known finding zipf_n1_umax excluded
-c03_zipf!(c03_zipf_f64, f64, 1e15, umax64, 0);
+c03_zipf!(c03_zipf_f64, f64, 1e15, umax64, 0, false);
 //@ id: c03_zipf_f32
 //@ prop: C03
-//@ tier: quick
+//@ tier: thorough
 //@ cap: 900
 //@ funcs: Zipf::<f32>::new; Zipf::<f32>::sample; inv_cdf
 //@ bounds: n in [1, 1e7], s in [0, 100]; first trial (2 words), all 2^24 uniform values
 //@ assumes: as c03_zipf_f64
-c03_zipf!(c03_zipf_f32, f32, 1e7, umax32, 0);
+c03_zipf!(c03_zipf_f32, f32, 1e7, umax32, 0, false);
 //@ id: c03_zipf_f64_kf_n1
 //@ prop: C03
-//@ tier: quick
+//@ tier: thorough
 //@ cap: 900
 //@ expect: fail
 //@ funcs: Zipf::<f64>::sample
 //@ bounds: n < 2, first uniform draw = 1 - 2^-53
-c03_zipf!(c03_zipf_f64_kf_n1, f64, 1e15, umax64, 1);
+c03_zipf!(c03_zipf_f64_kf_n1, f64, 1e15, umax64, 1, false);
 //@ id: c03_zipf_f32_kf_n1
 //@ prop: C03
 //@ tier: quick
@@ -113,7 +113,7 @@ c03_zipf!(c03_zipf_f64_kf_n1, f64, 1e15, umax64, 1);
 //@ expect: fail
 //@ funcs: Zipf::<f32>::sample
 //@ bounds: n < 2, first uniform draw = 1 - 2^-24
-c03_zipf!(c03_zipf_f32_kf_n1, f32, 1e7, umax32, 1);
+c03_zipf!(c03_zipf_f32_kf_n1, f32, 1e7, umax32, 1, false);
 
 // ------------------------------------------------------------------------------------------
 // C02: the normalising constant t of the rejection-inversion sampler on each side of the s = 1 switch
@@ -180,3 +180,42 @@ c02_zipf_t!(c02_zipf_t_f64, f64);
 //@ bounds: as c02_zipf_t_f64
 //@ assumes: libm::logf, libm::powf (and log1pf) replaced by free logging stubs
 c02_zipf_t!(c02_zipf_t_f32, f32);
+
+
+// quick tier: everything except the upper end of the support
+macro_rules! c03_zipf_lite {
+    ($name:ident, $f:ty, $maxn:expr) => {
+        vproof! {
+            #[kani::unwind(3)]
+            fn $name() {
+                let mut rng = SymRng::new(2);
+                let n: $f = kani::any();
+                let s: $f = kani::any();
+                let d = match Zipf::<$f>::new(n, s) { Ok(d) => d, Err(_) => return };
+                kani::assume(n <= $maxn && s <= 100.0);
+                let x: $f = d.sample(&mut rng);
+                vassert!(x == x, "Zipf sample is NaN");
+                vassert!(x >= 1.0, "Zipf sample below 1");
+                vassert!(rng.pos == 2, "Zipf: a trial consumes two words");
+                kani::cover!(x == 1.0, "x = 1");
+                kani::cover!(x > 1.0, "x > 1");
+            }
+        }
+    };
+}
+//@ id: c03_zipf_lite_f64
+//@ prop: C03
+//@ tier: thorough
+//@ cap: 900
+//@ funcs: Zipf::<f64>::new; Zipf::<f64>::sample; inv_cdf
+//@ bounds: n in [1, 1e15], s in [0, 100]; first trial (2 words); asserts non-NaN, >= 1, two words per trial
+//@ assumes: libm::{pow,log,exp} by contract; the upper end x <= n is not asserted here (thorough: c03_zipf_f64 for n < 2)
+c03_zipf_lite!(c03_zipf_lite_f64, f64, 1e15);
+//@ id: c03_zipf_lite_f32
+//@ prop: C03
+//@ tier: quick
+//@ cap: 900
+//@ funcs: Zipf::<f32>::new; Zipf::<f32>::sample; inv_cdf
+//@ bounds: n in [1, 1e7], s in [0, 100]; first trial (2 words), all 2^24 uniform values
+//@ assumes: libm::{powf,logf,expf} by contract
+c03_zipf_lite!(c03_zipf_lite_f32, f32, 1e7);
